@@ -117,35 +117,37 @@ class Gen:
             self.stmt("_ = %s" % v)
             strs.append(v)
         elif k == "fset":
-            self.stmt("%s.%s = %s" % (a, r.pick(["f", "g"]), x), accs=[(a, 1)])
+            fld = r.pick(["f", "g"])
+            self.stmt("%s.%s = %s" % (a, fld, x), accs=[("&%s.%s" % (a, fld), 1)])
             self.features.add("field-store")
         elif k == "fget":
             v = self.fresh("x")
-            self.stmt("%s := %s.%s" % (v, a, r.pick(["f", "g"])), accs=[(a, 0)])
+            fld = r.pick(["f", "g"])
+            self.stmt("%s := %s.%s" % (v, a, fld), accs=[("&%s.%s" % (a, fld), 0)])
             self.stmt("_ = %s" % v)
             strs.append(v)
         elif k == "link":
             b = r.pick(objs)
-            self.stmt("%s.n = %s" % (a, b), accs=[(a, 1)])
+            self.stmt("%s.n = %s" % (a, b), accs=[("&%s.n" % a, 1)])
             self.features.add("link")
         elif k == "follow":
             v = self.fresh("o")
-            self.stmt("%s := %s.n" % (v, a), accs=[(a, 0)])
+            self.stmt("%s := %s.n" % (v, a), accs=[("&%s.n" % a, 0)])
             self.stmt("_ = %s" % v)
             objs.append(v)
         elif k == "deep":
             v = self.fresh("x")
-            self.stmt("%s := %s.n.f" % (v, a), accs=[(a, 0), (a + ".n", 0)])
+            self.stmt("%s := %s.n.f" % (v, a), accs=[("&%s.n" % a, 0), ("&%s.n.f" % a, 0)])
             self.stmt("_ = %s" % v)
             strs.append(v)
         elif k == "deepset":
-            self.stmt("%s.n.f = %s" % (a, x), accs=[(a, 0), (a + ".n", 1)])
+            self.stmt("%s.n.f = %s" % (a, x), accs=[("&%s.n" % a, 0), ("&%s.n.f" % a, 1)])
             self.features.add("field-store")
         elif k == "addr":
             v = self.fresh("p")
             what = r.pick(["%s.f" % a, "%s.g" % a, "%s.n.f" % a])
             # &a.f computes an address without touching *a; &a.n.f loads a.n first
-            self.stmt("%s := &%s" % (v, what), accs=[(a, 0)] if ".n." in what else ())
+            self.stmt("%s := &%s" % (v, what), accs=[("&%s.n" % a, 0)] if ".n." in what else ())
             self.stmt("_ = %s" % v)
             env["ptrs"].append(v)
             self.features.add("interior-pointer")
@@ -168,23 +170,25 @@ class Gen:
             self.spawned += 1
             self.features.add("go-inside-callee")
         elif k == "mset":
-            self.stmt('%s.m["k"] = %s' % (a, x), accs=[(a, 0), (a + ".m", 1)])
+            self.stmt('%s.m["k"] = %s' % (a, x), accs=[("&%s.m" % a, 0), (a + ".m", 1)])
             self.features.add("map")
         elif k == "mget":
             v = self.fresh("x")
-            self.stmt('%s := %s.m["k"]' % (v, a), accs=[(a, 0), (a + ".m", 0)])
+            self.stmt('%s := %s.m["k"]' % (v, a), accs=[("&%s.m" % a, 0), (a + ".m", 0)])
             self.stmt("_ = %s" % v)
             strs.append(v)
         elif k == "lset":
-            self.stmt("%s.l[%d] = %s" % (a, r.below(2), x), accs=[(a, 0), ("&%s.l[0]" % a, 1)])
+            li = r.below(2)
+            self.stmt("%s.l[%d] = %s" % (a, li, x), accs=[("&%s.l" % a, 0), ("&%s.l[%d]" % (a, li), 1)])
             self.features.add("slice")
         elif k == "lget":
             v = self.fresh("x")
-            self.stmt("%s := %s.l[%d]" % (v, a, r.below(2)), accs=[(a, 0), ("&%s.l[0]" % a, 0)])
+            li = r.below(2)
+            self.stmt("%s := %s.l[%d]" % (v, a, li), accs=[("&%s.l" % a, 0), ("&%s.l[%d]" % (a, li), 0)])
             self.stmt("_ = %s" % v)
             strs.append(v)
         elif k == "append":
-            self.stmt("%s.l = append(%s.l, %s)" % (a, a, x), accs=[(a, 1)])
+            self.stmt("%s.l = append(%s.l, %s)" % (a, a, x), accs=[("&%s.l" % a, 1)])
         elif k == "gset":
             g = r.pick(["G0", "G1"])
             self.stmt("%s = %s" % (g, x), accs=[("&" + g, 1)])
@@ -204,7 +208,7 @@ class Gen:
             self.stmt("_ = %s" % v)
             objs.append(v)
         elif k == "gsfield":
-            self.stmt("GS.f = %s" % x, accs=[("&GS", 0), ("GS", 1)])
+            self.stmt("GS.f = %s" % x, accs=[("&GS", 0), ("&GS.f", 1)])
             self.features.add("global-object")
         elif k == "sink":
             ln = self.L()
@@ -242,7 +246,7 @@ class Gen:
             body = r.pick(["%s.f = %s" % (a, x), "G1 = %s" % x, "%s.n = %s" % (a, r.pick(objs))] if self.use_globals
                           else ["%s.f = %s" % (a, x), "%s.g = %s" % (a, x), "%s.n = %s" % (a, r.pick(objs))])
             ln = self.L()
-            acc = "simb.Acc(%d, %s, 1); " % (ln, a) if body.startswith(a + ".") else "simb.Acc(%d, &G1, 1); " % ln
+            acc = "simb.Acc(%d, &%s, 1); " % (ln, body.split(" = ")[0]) if body.startswith(a + ".") else "simb.Acc(%d, &G1, 1); " % ln
             self.stmt("%s := func() { %s }" % (f, body), "%s := func() { %s%s }" % (f, acc, body))
             self.stmt("%s()" % f)
             self.features.add("closure")
@@ -388,13 +392,13 @@ class Gen:
         e("type H struct{ fn func(%s) }" % PARAMS)
         e("")
         ln = self.L()
-        e("func (s *S) Set(x string) { s.f = x }", "func (s *S) Set(x string) { simb.Acc(%d, s, 1); s.f = x }" % ln)
+        e("func (s *S) Set(x string) { s.f = x }", "func (s *S) Set(x string) { simb.Acc(%d, &s.f, 1); s.f = x }" % ln)
         ln = self.L()
-        e("func (s *S) Get() string  { return s.g }", "func (s *S) Get() string  { simb.Acc(%d, s, 0); return s.g }" % ln)
+        e("func (s *S) Get() string  { return s.g }", "func (s *S) Get() string  { simb.Acc(%d, &s.g, 0); return s.g }" % ln)
         ln = self.L()
-        e("func (s *S) Put(o *S, x string) { o.f = x }", "func (s *S) Put(o *S, x string) { simb.Acc(%d, o, 1); o.f = x }" % ln)
+        e("func (s *S) Put(o *S, x string) { o.f = x }", "func (s *S) Put(o *S, x string) { simb.Acc(%d, &o.f, 1); o.f = x }" % ln)
         ln = self.L()
-        e("func (s *S) Link(o *S)          { s.n = o }", "func (s *S) Link(o *S)          { simb.Acc(%d, s, 1); s.n = o }" % ln)
+        e("func (s *S) Link(o *S)          { s.n = o }", "func (s *S) Link(o *S)          { simb.Acc(%d, &s.n, 1); s.n = o }" % ln)
         e('func newS() *S { s := &S{m: map[string]string{}, l: []string{"", ""}}; s.n = s; return s }')
         e('func source1() string { return "src" }')
         e("func sink1(x any)      {}")
@@ -405,28 +409,28 @@ class Gen:
         e("func (Rc) rec()        { recover() }")
         e("var GR Rc")
         ln = self.L()
-        e("func hset(a *S, x string) { a.g = x }", "func hset(a *S, x string) { simb.Acc(%d, a, 1); a.g = x }" % ln)
+        e("func hset(a *S, x string) { a.g = x }", "func hset(a *S, x string) { simb.Acc(%d, &a.g, 1); a.g = x }" % ln)
         ln = self.L()
-        e("func hget(a *S) string    { return a.f }", "func hget(a *S) string    { simb.Acc(%d, a, 0); return a.f }" % ln)
+        e("func hget(a *S) string    { return a.f }", "func hget(a *S) string    { simb.Acc(%d, &a.f, 0); return a.f }" % ln)
         ln = self.L()
-        e("func hlink(a *S, b *S)    { a.n = b }", "func hlink(a *S, b *S)    { simb.Acc(%d, a, 1); a.n = b }" % ln)
+        e("func hlink(a *S, b *S)    { a.n = b }", "func hlink(a *S, b *S)    { simb.Acc(%d, &a.n, 1); a.n = b }" % ln)
         ln = self.L()
-        e("func hnext(a *S) *S       { return a.n }", "func hnext(a *S) *S       { simb.Acc(%d, a, 0); return a.n }" % ln)
+        e("func hnext(a *S) *S       { return a.n }", "func hnext(a *S) *S       { simb.Acc(%d, &a.n, 0); return a.n }" % ln)
         ln = self.L()
         e("func hpub(a *S)           { GS = a }", "func hpub(a *S)           { simb.Acc(%d, &GS, 1); GS = a }" % ln)
         ln = self.L()
         e("func hswap(a *S, b *S)    { a.f, b.f = b.f, a.f }",
-          "func hswap(a *S, b *S)    { simb.Acc(%d, a, 1); simb.Acc(%d, b, 1); a.f, b.f = b.f, a.f }" % (ln, ln))
+          "func hswap(a *S, b *S)    { simb.Acc(%d, &a.f, 1); simb.Acc(%d, &b.f, 1); a.f, b.f = b.f, a.f }" % (ln, ln))
         # helpers that start a goroutine inside a callee, handing it an interior pointer or an inner object
         ln = self.L()
         e("func hspawnf(a *S, done chan bool) { go wleakp(&a.f, done) }",
           "func hspawnf(a *S, done chan bool) { simrt.Go2(%d, wleakp, &a.f, done) }" % ln)
         ln = self.L()
         e("func hspawnn(a *S, done chan bool) { go wleakp(&a.n.f, done) }",
-          "func hspawnn(a *S, done chan bool) { simb.Acc(%d, a, 0); simrt.Go2(%d, wleakp, &a.n.f, done) }" % (ln, ln))
+          "func hspawnn(a *S, done chan bool) { simb.Acc(%d, &a.n, 0); simrt.Go2(%d, wleakp, &a.n.f, done) }" % (ln, ln))
         ln = self.L()
         e("func hspawno(a *S, done chan bool) { go wleako(a.n, done) }",
-          "func hspawno(a *S, done chan bool) { simb.Acc(%d, a, 0); simrt.Go2(%d, wleako, a.n, done) }" % (ln, ln))
+          "func hspawno(a *S, done chan bool) { simb.Acc(%d, &a.n, 0); simrt.Go2(%d, wleako, a.n, done) }" % (ln, ln))
         e("func wleakp(p *string, done chan bool) {")
         ln = self.L()
         e("\tdefer func() { done <- true }()", "\tdefer func() { simrt.Send(%d, done, true) }()" % ln)
@@ -443,10 +447,10 @@ class Gen:
         ln = self.L()
         e("\tdefer func() { done <- true }()", "\tdefer func() { simrt.Send(%d, done, true) }()" % ln)
         ln = self.L()
-        e("\tsink1(o.f)", "\tsimrt.Yield(%d); simb.Acc(%d, o, 0); simb.Sink(%d, o.f)" % (ln, ln, ln))
+        e("\tsink1(o.f)", "\tsimrt.Yield(%d); simb.Acc(%d, &o.f, 0); simb.Sink(%d, o.f)" % (ln, ln, ln))
         self.sink_lines.append(ln)
         ln = self.L()
-        e("\to.g = source1()", "\tsimrt.Yield(%d); simb.Acc(%d, o, 1); o.g = simb.Src(%d)" % (ln, ln, ln))
+        e("\to.g = source1()", "\tsimrt.Yield(%d); simb.Acc(%d, &o.g, 1); o.g = simb.Src(%d)" % (ln, ln, ln))
         self.source_lines.append(ln)
         e("}")
         e("")
@@ -596,7 +600,7 @@ class Gen:
                     e('\tif fault(%d) { panic("boom") }' % ln, '\tif simb.Fault(%d) { panic("boom") }' % ln)
                     w.twin_fault_lines = [ln]
                 ln = self.L()
-                e("\ta.g = b.f", "\tsimrt.Yield(%d); simb.Acc(%d, a, 1); simb.Acc(%d, b, 0); a.g = b.f" % (ln, ln, ln))
+                e("\ta.g = b.f", "\tsimrt.Yield(%d); simb.Acc(%d, &a.g, 1); simb.Acc(%d, &b.f, 0); a.g = b.f" % (ln, ln, ln))
                 e("}")
                 e("")
             if w.form in ("named", "funcvar", "funcfield", "funcparam"):
@@ -659,23 +663,23 @@ def program_for_analysis(seed, idx, **kw):
 
 PATTERNS = [
     # name, writer statements (use a = shared object, x = tainted string), features
-    ("field", ["a.f = x"], [("a", 1)]),
-    ("deep-field", ["a.n.f = x"], [("a", 0), ("a.n", 1)]),
+    ("field", ["a.f = x"], [("&a.f", 1)]),
+    ("deep-field", ["a.n.f = x"], [("&a.n", 0), ("&a.n.f", 1)]),
     ("helper", ["hset(a, x)"], []),
     ("iface-ptr-arg", ["var i I = b", "i.Put(a, x)"], []),
-    ("iface-ptr-arg-deep", ["var i I = b", "i.Put(a.n, x)"], [("a", 0)]),
+    ("iface-ptr-arg-deep", ["var i I = b", "i.Put(a.n, x)"], [("&a.n", 0)]),
     ("iface-link", ["o := newS()", "o.f = x", "var i I = a", "i.Link(o)"], []),
     ("method-ptr-arg", ["b.Put(a, x)"], []),
     ("closure", ["fn := func() { a.f = x }", "fn()"], []),
     ("closure-param", ["apply(func(o *S) { o.f = x }, a)"], []),
     ("interior-pointer", ["p := &a.f", "*p = x"], [("p", 1)]),
     ("interior-pointer-deep", ["p := &a.n.g", "*p = x"], [("p", 1)]),
-    ("map", ['a.m["k"] = x'], [("a", 0), ("a.m", 1)]),
-    ("slice", ["a.l[1] = x"], [("a", 0), ("&a.l[0]", 1)]),
-    ("append", ["a.l = append(a.l, x)"], [("a", 1)]),
-    ("link", ["o := newS()", "o.f = x", "a.n = o"], [("a", 1)]),
+    ("map", ['a.m["k"] = x'], [("&a.m", 0), ("a.m", 1)]),
+    ("slice", ["a.l[1] = x"], [("&a.l", 0), ("&a.l[1]", 1)]),
+    ("append", ["a.l = append(a.l, x)"], [("&a.l", 1)]),
+    ("link", ["o := newS()", "o.f = x", "a.n = o"], [("&a.n", 1)]),
     ("swap", ["o := newS()", "o.f = x", "hswap(a, o)"], []),
-    ("recv-then-store", ["a.n.n.f = x"], [("a", 0), ("a.n", 0), ("a.n.n", 1)]),
+    ("recv-then-store", ["a.n.n.f = x"], [("&a.n", 0), ("&a.n.n", 0), ("&a.n.n.f", 1)]),
 ]
 
 
@@ -694,7 +698,7 @@ def focused(seed, idx):
         # a callee hands an interior pointer (&a.n.f or &a.f) to a goroutine; the other side uses the field directly
         fresh_inner = True
         inner = rng.pick(["a.n.f", "a.n.f", "a.f", "a.n.n.f"])
-        name, writer, waccs = "interior-of-" + inner, ["%s = x" % inner], [("a", 0)]
+        name, writer, waccs = "interior-of-" + inner, ["%s = x" % inner], [("&" + inner, 1)]
     g.features |= {"focused", "pattern:" + name, "share:" + share, "writer:" + ("main" if writer_is_main else "goroutine")}
     e("package main", 'package main; import ("simrt"; "simrt/simb")')
     e("")
@@ -712,17 +716,17 @@ def focused(seed, idx):
     e("}")
     e("")
     ln = g.L()
-    e("func (s *S) Put(o *S, x string) { o.f = x }", "func (s *S) Put(o *S, x string) { simb.Acc(%d, o, 1); o.f = x }" % ln)
+    e("func (s *S) Put(o *S, x string) { o.f = x }", "func (s *S) Put(o *S, x string) { simb.Acc(%d, &o.f, 1); o.f = x }" % ln)
     ln = g.L()
-    e("func (s *S) Link(o *S)          { s.n = o }", "func (s *S) Link(o *S)          { simb.Acc(%d, s, 1); s.n = o }" % ln)
+    e("func (s *S) Link(o *S)          { s.n = o }", "func (s *S) Link(o *S)          { simb.Acc(%d, &s.n, 1); s.n = o }" % ln)
     e('func newS() *S { s := &S{m: map[string]string{}, l: []string{"", ""}}; s.n = s; return s }')
     e('func source1() string { return "src" }')
     e("func sink1(x any)      {}")
     ln = g.L()
-    e("func hset(a *S, x string) { a.g = x }", "func hset(a *S, x string) { simb.Acc(%d, a, 1); a.g = x }" % ln)
+    e("func hset(a *S, x string) { a.g = x }", "func hset(a *S, x string) { simb.Acc(%d, &a.g, 1); a.g = x }" % ln)
     ln = g.L()
     e("func hswap(a *S, b *S)    { a.f, b.f = b.f, a.f }",
-      "func hswap(a *S, b *S)    { simb.Acc(%d, a, 1); simb.Acc(%d, b, 1); a.f, b.f = b.f, a.f }" % (ln, ln))
+      "func hswap(a *S, b *S)    { simb.Acc(%d, &a.f, 1); simb.Acc(%d, &b.f, 1); a.f, b.f = b.f, a.f }" % (ln, ln))
     e("func apply(fn func(o *S), a *S) { fn(a) }")
     e("type Box struct{ p *S }")
     e("")
@@ -770,7 +774,7 @@ def focused(seed, idx):
     if share == "spawn-interior":
         e("func publish(a *S, b *S, done chan bool) {")
         w.go_line = g.L()
-        pre = "simb.Acc(%d, a, 0); " % w.go_line if ".n." in inner else ""
+        pre = "simb.Acc(%d, &a.n, 0); " % w.go_line if ".n." in inner else ""
         e("\tgo w0(&%s, b, done)" % inner, "\t%ssimrt.Go3(%d, w0, &%s, b, done)" % (pre, w.go_line, inner))
         e("}")
         e("")
@@ -806,7 +810,7 @@ def focused(seed, idx):
         e("b := newS()")
         if fresh_inner:
             ln = g.L()
-            e("a.n = newS()", "simb.Acc(%d, a, 1); a.n = newS()" % ln)
+            e("a.n = newS()", "simb.Acc(%d, &a.n, 1); a.n = newS()" % ln)
             if name == "recv-then-store" or share == "spawn-interior":
                 e("a.n.n = newS()")
         g.features.add("alloc:constructor")
@@ -904,11 +908,11 @@ def focused_select(seed, idx):
         if isptr:
             if worker_writes:
                 ln = g.L()
-                g.stmt("j.f = source1()", "j.f = simb.Src(%d)" % ln, accs=[("j", 1)])
+                g.stmt("j.f = source1()", "j.f = simb.Src(%d)" % ln, accs=[("&j.f", 1)])
                 g.source_lines.append(ln)
             else:
                 ln = g.L()
-                g.stmt("sink1(j.f)", "simb.Sink(%d, j.f)" % ln, accs=[("j", 0)])
+                g.stmt("sink1(j.f)", "simb.Sink(%d, j.f)" % ln, accs=[("&j.f", 0)])
                 g.sink_lines.append(ln)
         else:
             g.stmt("_ = c")
@@ -932,11 +936,11 @@ def focused_select(seed, idx):
         e("ctl <- %s" % val, "simrt.Send(%d, ctl, %s)" % (ln, val))
     if worker_writes:
         ln = g.L()
-        g.stmt("sink1(a.f)", "simb.Sink(%d, a.f)" % ln, accs=[("a", 0)])
+        g.stmt("sink1(a.f)", "simb.Sink(%d, a.f)" % ln, accs=[("&a.f", 0)])
         g.sink_lines.append(ln)
     else:
         ln = g.L()
-        g.stmt("a.f = source1()", "a.f = simb.Src(%d)" % ln, accs=[("a", 1)])
+        g.stmt("a.f = source1()", "a.f = simb.Src(%d)" % ln, accs=[("&a.f", 1)])
         g.source_lines.append(ln)
     ln = g.L()
     e("<-done", "simrt.Recv(%d, done)" % ln)
@@ -976,13 +980,13 @@ def focused_closure_handoff(seed, idx):
         ln = g.L()
         e("\tdefer func() { done <- true }()", "\tdefer func() { simrt.Send(%d, done, true) }()" % ln)
         ln = g.L()
-        e("\tif bx.fn != nil {", "\tsimrt.Yield(%d); simb.Acc(%d, bx, 0); if bx.fn != nil {" % (ln, ln))
+        e("\tif bx.fn != nil {", "\tsimrt.Yield(%d); simb.Acc(%d, &bx.fn, 0); if bx.fn != nil {" % (ln, ln))
         e("\t\tbx.fn()")
         e("\t}")
     if body == "store":
         ln = g.L()
         g.indent = 1
-        g.stmt("sink1(a.f)", "simb.Sink(%d, a.f)" % ln, accs=[("a", 0)])
+        g.stmt("sink1(a.f)", "simb.Sink(%d, a.f)" % ln, accs=[("&a.f", 0)])
         g.sink_lines.append(ln)
         g.indent = 0
     e("}")
@@ -1007,12 +1011,12 @@ def focused_closure_handoff(seed, idx):
         e("fn := func() { sink1(x) }", "fn := func() { simb.Sink(%d, x) }" % ln)
         g.sink_lines.append(ln)
     else:
-        e("fn := func() { a.f = x }", "fn := func() { simb.Acc(%d, a, 1); a.f = x }" % ln)
+        e("fn := func() { a.f = x }", "fn := func() { simb.Acc(%d, &a.f, 1); a.f = x }" % ln)
     ln = g.L()
     if via == "chan":
         e("jobs <- fn", "simrt.Send(%d, jobs, fn)" % ln)
     else:
-        g.stmt("bx.fn = fn", accs=[("bx", 1)])
+        g.stmt("bx.fn = fn", accs=[("&bx.fn", 1)])
     ln = g.L()
     e("<-done", "simrt.Recv(%d, done)" % ln)
     ln = g.L()
